@@ -206,18 +206,18 @@ def strategy(tier):
         body = st.lists(st.one_of(logop, logop, spawn, children), min_size=1, max_size=4)
         a_scope = st.builds(
             lambda n, lg, tr, b: {"k": "scope", "mode": "async", "name": n, "state": [], "disp": None, "disp_obj": False, "logger": lg, "trace": tr, "completion": "sync", "body": b},
-            names, st.booleans(), trace, body,
+            names, st.sampled_from([False, True, True, "late"]), trace, body,
         )  # fmt: skip
         s_scope = st.builds(
             lambda n, lg, tr, b: {"k": "scope", "mode": "sync", "name": n, "state": [], "disp": None, "logger": lg, "trace": tr, "completion": "sync", "body": b},
-            names, st.booleans(), trace, body,
+            names, st.sampled_from([False, True, True, "late"]), trace, body,
         )  # fmt: skip
         return st.one_of(a_scope, a_scope, s_scope)
 
     block = st.recursive(blocks(logop), blocks, max_leaves=6)
     return st.builds(
         lambda pre, n, lg, tr, b, post: {"body": [*pre, {"k": "scope", "mode": "async", "name": n, "state": [], "disp": None, "disp_obj": False, "logger": lg, "trace": tr, "completion": "sync", "body": b}, *post]},
-        st.lists(logop, max_size=1), names, st.sampled_from([False, False, True]), trace,
+        st.lists(logop, max_size=1), names, st.sampled_from([False, False, True, "late"]), trace,
         st.lists(st.one_of(logop, block, block), min_size=1, max_size=4), st.lists(logop, max_size=1),
     )  # fmt: skip
 
